@@ -31,10 +31,27 @@ func replay(c *vlib.Cases, path string) {
 		Interval int64 `json:"interval"`
 		Ideal    bool  `json:"ideal"`
 		Ops      []op  `json:"ops"`
+		Fleet    *struct {
+			Idx  int       `json:"idx"`
+			Plan fleetPlan `json:"plan"`
+		} `json:"fleet"`
 	}
 	if err := json.Unmarshal(raw, &cs); err != nil {
 		fmt.Fprintln(os.Stderr, "c07: bad case in replay file:", err)
 		os.Exit(3)
+	}
+	if cs.Fleet != nil && len(cs.Fleet.Plan.Intervals) > 0 {
+		// one endpoint of a fleet failed: re-run the whole fleet on one checker, emit every endpoint's projection
+		eps, ok := runFleet(cs.Fleet.Plan)
+		if ok {
+			emitFleet(c, cs.Fleet.Plan, eps, "fleet")
+			if i := cs.Fleet.Idx; i >= 0 && i < len(eps) {
+				fmt.Fprintf(os.Stderr, "replay fleet of %d endpoints, endpoint %d (priority %d, interval %v) ops=%v\nobserved: %v\n", len(eps), i, cs.Fleet.Plan.Prios[i], time.Duration(cs.Fleet.Plan.Intervals[i]), eps[i].ops, eps[i].obs)
+			}
+		} else {
+			fmt.Fprintln(os.Stderr, "replay: the fleet history could not be run within its real-time budget (loaded machine); not judged")
+		}
+		return
 	}
 	ops := make([]op, len(cs.Ops))
 	for i, o := range cs.Ops {
